@@ -270,7 +270,7 @@ func panicKey(r any, stack []byte) string {
 	for _, ln := range strings.Split(string(stack), "\n") {
 		if strings.Contains(ln, "mqtt-go.") && !strings.Contains(ln, "internal/verif") {
 			fn := strings.TrimSpace(ln)
-			if i := strings.Index(fn, "("); i > 0 {
+			if i := strings.LastIndex(fn, "("); i > 0 {
 				fn = fn[:i]
 			}
 			if j := strings.LastIndex(fn, "/"); j >= 0 {
